@@ -354,3 +354,5 @@ mut("c20_consequent_standard_hedges", "C20", "rule.py",
     "consequent hedges looked up in a fresh standard factory instead of the factory manager in force")
 mut("d9_revert_empty_batch", "C13", "variable.py", "        self.previous_value = np.take(self.value, -1).astype(float) if np.size(self.value) else nan\n",
     "        self.previous_value = np.take(self.value, -1).astype(float)\n", "defect D9 as found at the pinned commit")
+mut("d10_revert_nditer_zerosize", "C12", "variable.py", '            with np.nditer(value, flags=["zerosize_ok"], op_flags=[["readwrite"]]) as iterator:\n',
+    '            with np.nditer(value, op_flags=[["readwrite"]]) as iterator:\n', "defect D10 as found at the pinned commit")
